@@ -262,6 +262,8 @@ func bodyGatedFamily(k cfg) func(c *drv.Ctx) {
 		wl := lww.BuildWord(word)
 		spec := menu[vrt.Choose(len(menu), "gate")]
 		startAt := 1 + vrt.Choose(len(wl), "copy-starts-after-step")
+		// a slow backup: it takes its copy reader, then waits before its first file for this many further driver steps
+		hold := vrt.Choose(3, "backup-waits-before-its-first-file-for-steps")
 		src := c.Dir + "/src"
 		var idx bleve.Index
 		vrt.Free(func() {
@@ -282,6 +284,8 @@ func bodyGatedFamily(k cfg) func(c *drv.Ctx) {
 		lo, hi := 0, 0
 		var cerr error
 		copied := false
+		hd := &gatedDir{FileSystemDirectory: bleve.FileSystemDirectory(dst), parked: make(chan int, 1), release: make(chan int, 1)}
+		holding, released := false, false
 		for j := 1; j <= len(wl); j++ {
 			j := j
 			wg.Add(1)
@@ -304,11 +308,23 @@ func bodyGatedFamily(k cfg) func(c *drv.Ctx) {
 				vrt.Go(func() {
 					defer wg.Done()
 					lo = acked
-					cerr = idx.(bleve.IndexCopyable).CopyTo(bleve.FileSystemDirectory(dst))
+					if hold > 0 {
+						cerr = idx.(bleve.IndexCopyable).CopyTo(hd)
+					} else {
+						cerr = idx.(bleve.IndexCopyable).CopyTo(bleve.FileSystemDirectory(dst))
+					}
 					hi = submitted
 					copied = true
 				})
 				vrt.WaitIdle()
+				holding = hold > 0
+			} else if holding && !released {
+				hold--
+				if hold == 0 {
+					released = true
+					vrt.Send(hd.release, 1)
+					vrt.WaitIdle()
+				}
 			}
 			if g.Step() {
 				vrt.WaitIdle()
@@ -316,12 +332,23 @@ func bodyGatedFamily(k cfg) func(c *drv.Ctx) {
 		}
 		parked := g.Was()
 		g.Open()
+		vrt.WaitIdle()
+		if holding && !released {
+			// the workload is over: a few idle rounds (persist, merge, purge) pass before the slow backup goes on
+			for round := 0; round < 2; round++ {
+				idx.SetInternal([]byte("tick"), []byte("w"))
+				vrt.WaitIdle()
+			}
+			released = true
+			vrt.Send(hd.release, 1)
+			vrt.WaitIdle()
+		}
 		wg.Wait()
 		vrt.WaitIdle()
 		if parked > 0 {
 			c.Count("executions_in_which_a_gate_parked_a_background_thread", 1)
 		}
-		c.Observe(fmt.Sprintf("wl=%s gate=%s start=%d", word, spec.Label, startAt))
+		c.Observe(fmt.Sprintf("wl=%s gate=%s start=%d hold=%v", word, spec.Label, startAt, holding))
 		c.Count("family_words_x_gates_x_starts_run", 1)
 		vrt.Free(func() {
 			if !copied {
@@ -785,8 +812,12 @@ func Scenarios() []drv.Scenario {
 		return sc
 	}
 	gfam := func(name string, conf map[string]interface{}, quick bool) drv.Scenario {
-		sc := drv.Scenario{Name: name, Body: bodyGatedFamily(cfg{name: name, conf: conf, family: lww.GatedWords(mc.Tier())}), Thorough: d0, Class: "backup", MaxSteps: 1500000,
-			Doc: "gated workload family: every word over the batch-shape alphabet x every member of the gate menu (none, single gates, persister+merger pairs) x the step after which the backup starts (environment choices); the backup must return nil, open, be a whole-batch state inside [acknowledged before it began, submitted when it ended]; source unaffected, tidy at quiescence, reopens"}
+		gw := lww.GatedWords(mc.Tier())
+		if mc.Tier() != "thorough" {
+			gw = lww.Words("bdz", 2) // x 25 gates x 3 start steps x 3 hold times
+		}
+		sc := drv.Scenario{Name: name, Body: bodyGatedFamily(cfg{name: name, conf: conf, family: gw}), Thorough: d0, Class: "backup", MaxSteps: 1500000,
+			Doc: "gated workload family: every word over the batch-shape alphabet x every member of the gate menu (none, single gates, persister+merger pairs) x the step after which the backup starts x how many further steps a slow backup waits between taking its copy reader and its first file (environment choices); the backup must return nil, open, be a whole-batch state inside [acknowledged before it began, submitted when it ended]; source unaffected, tidy at quiescence, reopens"}
 		if quick {
 			sc.Quick = d0
 		}
